@@ -124,7 +124,11 @@ func newClassicAuth(r *Run, servers []string, mutate func(cfg *config.Config), m
 		b := &backendModel{index: i, name: name, addr: simnet.TCP(fmt.Sprintf("10.5.0.%d", i+1), 25565), w: w, Beh: backendBehavior{Compression: -1}}
 		w.backends[name] = b
 		w.border = append(w.border, name)
-		if _, err := p.Register(b); err != nil {
+		var info proxy.ServerInfo = b
+		if classicWrapInfo != nil {
+			info = classicWrapInfo(b)
+		}
+		if _, err := p.Register(info); err != nil {
 			r.HarnessError("Register: %v", err)
 			r.Abort()
 		}
@@ -173,4 +177,19 @@ func (w *classicWorld) capturePanics() {
 			w.r.Logf("gate: %s %s", prefix, args)
 		}
 	}, funcr.Options{Verbosity: 0}))
+}
+
+// classicWrapInfo, when set by a scenario before newClassic, wraps the ServerInfo that is
+// registered for each backend (e.g. to add an optional hook interface). Reset by the scenario.
+var classicWrapInfo func(b *backendModel) proxy.ServerInfo
+
+// hookedInfo is a backend whose ServerInfo implements proxy.HandshakeAddresser.
+type hookedInfo struct {
+	*backendModel
+	got []string // the default addresses the hook was given
+}
+
+func (h *hookedInfo) HandshakeAddr(defaultPlayerVirtualHost string, _ proxy.Player) string {
+	h.got = append(h.got, defaultPlayerVirtualHost)
+	return "hooked." + defaultPlayerVirtualHost
 }
